@@ -1223,10 +1223,19 @@ func (s *Server) subscriptionsListen(ctx context.Context, req *SubscriptionsList
 	}
 	s.mu.Unlock()
 	defer func() {
+		// Remove only what this listen registered: the session may have other
+		// listen streams (for example one per subscribed resource) whose end
+		// must not cancel the list-changed subscriptions of this one.
 		s.mu.Lock()
-		delete(s.toolChangeSubscriptions, req.Session)
-		delete(s.promptChangeSubscriptions, req.Session)
-		delete(s.resourceChangeSubscriptions, req.Session)
+		if allowed.ToolsListChanged && s.toolChangeSubscriptions[req.Session] == requestID {
+			delete(s.toolChangeSubscriptions, req.Session)
+		}
+		if allowed.PromptsListChanged && s.promptChangeSubscriptions[req.Session] == requestID {
+			delete(s.promptChangeSubscriptions, req.Session)
+		}
+		if allowed.ResourcesListChanged && s.resourceChangeSubscriptions[req.Session] == requestID {
+			delete(s.resourceChangeSubscriptions, req.Session)
+		}
 		s.mu.Unlock()
 	}()
 
